@@ -92,6 +92,14 @@ package pebbledb
 //@   ensures [C18.intact] [C05.intact] true
 //@   include lockproto
 //@   include commitproto
+//@   include writeset
+// C06: every signature of the batch that is the last one with its ID gets its record and all its index entries
+// written (again) in this batch - index values carry the entropy, so "hash unchanged" is no reason to skip them.
+//@   ghost okAll bool
+//@   init okAll = true
+//@   loop 3 update okAll = prev(okAll) && (lastIdx[sig.ID] != prev(#i) || ((sigKey(sig.ID) in written) && (topoKey(sig.TopologyHash, sig.ID) in written) && (entrKey(sig.EntropyScore, sig.ID) in written) && (sig.FuzzyHash != "" ==> fuzzyKey(sig.FuzzyHash, sig.ID) in written)))
+//@   loop 3 invariant [C06.write] okAll
+//@   call (*github.com/cockroachdb/pebble.Batch).Commit assert [C06.write] okAll
 
 //@ func (*PebbleScanner).DeleteSignature
 //@   protocol-only C06 C07 C10 C11
